@@ -48,6 +48,7 @@ func VerifH_C05_O11_zson_readers_share_context() {
 		k = 3
 	}
 	verif.Schedules(k)
+	verif.Races(true)
 	shape := verif.Choose("shapeB", 2)
 	rounds := verif.NativeRounds(2000)
 	zctx := zed.NewContext()
